@@ -342,3 +342,12 @@ package ro
 //@   binds destination
 //@   track call.NewSubscriberWithConcurrencyMode
 //@   ensures [eventually-safe-is-the-dropping-mode|C02] trace(call.NewSubscriberWithConcurrencyMode(destination, 2))
+
+//@ func recoverUnhandledError
+//@   note every goroutine the library starts runs under this wrapper: whatever panics there reaches the unhandled-error hook, exactly once, whatever the panic value
+//@   props C07
+//@   binds cb
+//@   panicforks
+//@   track hook.ANY callfn.ANY
+//@   ensures [a-panic-reaches-the-hook-once|C07] panicked(cb) ==> !panics && count(hook.OnUnhandledError) == 1
+//@   ensures [no-panic-no-report|C07] !panicked(cb) ==> count(hook.OnUnhandledError) == 0
